@@ -337,6 +337,9 @@ func basePlans(tier string) []mc.Plan {
 		}
 	}
 	ps = append(ps, mc.Plan{Scen: slowMarshal(tiny), Bounds: []int{0, 1}})
+	for _, cfg := range []wl.Config{{Pipe: tr.Options{Cap: -1}}, tiny} {
+		ps = append(ps, mc.Plan{Scen: slowUnmarshal(cfg), Bounds: []int{0, 1}})
+	}
 	// bytes returned by RawRecv belong to the caller, also after the next RPC's packets have arrived
 	for _, cfg := range []wl.Config{{Soft: true, Pipe: tr.Options{Cap: -1}}, tiny} {
 		for _, second := range []rpcSpec{{"U", "ok", "echo"}, {"R", "drain", "send2"}} {
@@ -441,6 +444,84 @@ func slowMarshal(cfg wl.Config) *mc.Scenario {
 		}
 		if h, ok := wl.GetEnv(e).Facts["hung"]; ok {
 			return fmt.Sprintf("callers never finished; blocked=%v", h)
+		}
+		return ""
+	}
+	return &mc.Scenario{Name: name, Body: body, Check: check, Model: sched.Deviation, NoCache: true}
+}
+
+// slowUnmarshal: the handler of call 0 receives in a goroutine of its own, whose (user-supplied,
+// slow) decoder is still looking at the message bytes when the handler returns; the client goes on
+// to call 1 on the same connection; then the decoder finishes. What it decodes must be call 0's
+// message, whatever has arrived on the connection in the meantime.
+func slowUnmarshal(cfg wl.Config) *mc.Scenario {
+	name := fmt.Sprintf("slow-unmarshal[%s | handler of call 0 returns while its receiver goroutine is inside the decoder ; call 1 on the same connection ; decoder finishes]", cfg)
+	body := func() {
+		gate, arrived := &enc.Gate{}, &enc.Gate{}
+		decoded := false
+		h := func(env *wl.Env, stream drpc.Stream, rpc string) error {
+			check := func(in []byte, want byte) {
+				t, _, _, verr := enc.Verify(in)
+				if verr != nil {
+					env.Failf("handler %s received a corrupted message: %v", rpc, verr)
+				} else if t != want {
+					env.Failf("CROSSTALK: handler of %s received a message tagged %c", rpc, t)
+				}
+			}
+			if rpc == "/r0" {
+				vs.Go("r0-receiver", func() {
+					var in []byte
+					if err := stream.MsgRecv(&in, enc.SlowU{G: gate, Arrived: arrived}); err == nil {
+						check(in, tagOf(0))
+						decoded = true
+					}
+				})
+				arrived.Wait()
+				return nil
+			}
+			var in []byte
+			if err := stream.MsgRecv(&in, enc.Bytes{}); err != nil {
+				return err
+			}
+			check(in, tagOf(1))
+			out := enc.Payload(tagOf(1), 1, 0, enc.MinPayload)
+			return stream.MsgSend(&out, enc.Bytes{})
+		}
+		env := wl.NewEnv(cfg, h)
+		done := false
+		vs.Go("caller", func() {
+			defer func() { done = true }()
+			s, err := env.Conn.NewStream(context.Background(), "/r0", enc.Bytes{})
+			if err != nil {
+				return
+			}
+			req := enc.Payload(tagOf(0), 0, 0, enc.MinPayload)
+			if err := s.MsgSend(&req, enc.Bytes{}); err != nil {
+				return
+			}
+			var in []byte
+			_ = s.MsgRecv(&in, enc.Bytes{}) // end of stream: the handler returned
+			_ = s.Close()
+			runRPC(env, 1, rpcSpec{"U", "ok", "echo"})
+		})
+		sched.Quiesce()
+		gate.Open()
+		sched.Quiesce()
+		if !done {
+			env.Facts["hung"] = wl.BlockedSummary(sched.BlockedNow())
+		}
+		sched.Observef("decoded=%v", decoded)
+		if pend, _ := env.Facts["pending"].([]string); len(pend) > 0 && !env.ConnClosed() {
+			env.Failf("%s", pend[0])
+		}
+		env.Teardown()
+	}
+	check := func(e *sched.Exec) string {
+		if m := wl.Basic(e); m != "" {
+			return m
+		}
+		if h, ok := wl.GetEnv(e).Facts["hung"]; ok {
+			return fmt.Sprintf("the caller never finished; blocked=%v", h)
 		}
 		return ""
 	}
